@@ -136,11 +136,13 @@ func (l *lexer) emitAtLineColumn(line, column int, typ tokenTyp, length int) {
 	start := len(l.text) - len(l.src)
 	end := start + length - 1
 	if length == 0 {
+		end = start
 		if typ == tokenSemicolon {
-			start--
+			// An automatically inserted semicolon is an empty token at the
+			// position of the newline (or of the end of the source).
+			end--
 			l.totals--
 		}
-		end = start
 	}
 	l.tokens <- token{
 		typ: typ,
